@@ -672,7 +672,7 @@ class C20(Prop):
             for b in (False, True):
                 errs.append({"kind": "evalerr", "mode": "n", "b": b, "expr": e, "args": [], "stdin": ""})
         quiet = [k for k in ERR_KERNELS if "matches(\"(\")" not in k]       # (re2 logs a bad pattern on the process's fd 2: that kernel stays in the fixed block)
-        for i in range(150 if quick else 3000):
+        for i in range(100 if quick else 3000):
             k = rng.choice(quiet)
             e = rng.choice(ERR_CONTEXTS).replace("$K", k)
             if rng.random() < 0.25:
